@@ -171,7 +171,7 @@ def evaluate(case, res, mon, sched_name):
 
 def run(case, ctx: Ctx, chooser: Chooser):
     W, script = case["W"], case["script"]
-    full = {"W": W, "script": script, "memo": case.get("memo", []), "late": case.get("late") or {}, "lockpass": case.get("lockpass") or [], "choices": None}
+    full = {"W": W, "script": script, "memo": case.get("memo", []), "late": case.get("late") or {}, "lockpass": case.get("lockpass") or [], "pauses": case.get("pauses") or [], "choices": None}
     orders = []
     kinds = []
     variants = case.get("variants")
